@@ -77,7 +77,7 @@ Fixpoint node_eqb (a b : enode nat nat) : bool :=
 Definition region_eqb (a b : eregion nat nat) : bool :=
   node_eqb (ENode OInvalid 0 [] [] [a] [] []) (ENode OInvalid 0 [] [] [b] [] []).
 
-Definition valid_all (h : hugr) : bool := valid_b h && valid_order_b h.
+Definition valid_all (h : hugr) : bool := valid_b h && valid_order_b h && stars_b h.
 
 (* correspondence: the implementation's module equals the model's up to renaming (and both fail
    together); a HUGR the generator built as a valid module meets the guard of the theorems *)
